@@ -866,6 +866,18 @@ class Interp:
             if st.args.defaults or any(d is not None for d in st.args.kw_defaults):
                 clo = _with_defaults(clo, [self.eval(d, env) for d in st.args.defaults], [None if d is None else self.eval(d, env) for d in st.args.kw_defaults])
             env[st.name] = clo
+        elif isinstance(st, ast.ClassDef) and ("__func__" in env or "__parent__" in env):
+            # a class defined inside a function: registered with its module under a unique name (its methods see module-level names only;
+            # a reference to a variable of the enclosing function ends in "unresolved name": exit 2, not a guess)
+            mod = self._mod(env)
+            uniq = f"{st.name}@{st.lineno}"
+            if uniq not in mod.classes:
+                mod.classes[uniq] = st
+                for sub in st.body:
+                    if isinstance(sub, (ast.FunctionDef, ast.AsyncFunctionDef)):
+                        sub._qualname = f"{uniq}.{sub.name}"
+            self.repo.__dict__.pop("_sym_mro", None)
+            env[st.name] = ClassRef(mod.name, uniq)
         elif isinstance(st, ast.Pass):
             pass
         elif isinstance(st, ast.Delete):
